@@ -49,7 +49,7 @@ class Prog:
         return "\n".join(out) + "\n"
 
 
-LOOPREGS = [f"s{x}{d}" for d in (0, 1) for x in "abcns"]
+LOOPREGS = [f"s{x}{d}" for d in (0, 1) for x in "abcnsde"]
 
 
 def fmt_op(o):
@@ -368,8 +368,12 @@ class FuncGen:
         r = self.r
         dep = self.loopdepth
         self.loopdepth += 1
-        sa, sb, sc, sn, ss = (f"s{x}{dep}" for x in "abcns")
-        head, skip = self.lab("LH"), self.lab("LS")
+        sa, sb, sc, sn, ss, sd, se = (f"s{x}{dep}" for x in "abcnsde")
+        head, skip, skipd = self.lab("LH"), self.lab("LS"), self.lab("LD")
+        gdiv = r.chance(1, 2)   # a guarded division by a loop-invariant, possibly zero divisor (must not be hoisted)
+        if gdiv:
+            self.emit("mov", sd, r.choice([0, 0, -1, 1, 3, self.isrc(), self.isrc()]))
+            self.emit("mov", se, self.isrc())
         self.emit("mov", sa, self.isrc()); self.emit("mov", sb, self.isrc()); self.emit("mov", sc, self.isrc())
         self.emit("mov", ss, 0)
         self.emit("mov", sn, 1 + r.below(5))
@@ -385,6 +389,21 @@ class FuncGen:
             self.emit("mov", "t0", sa); self.emit("add", sa, sa, 1); self.emit("mov", sb, "t0")
         else:
             self.emit("mov", "t0", sb); self.emit("add", sb, sa, sc); self.emit("mov", sa, "t0")
+        if gdiv:
+            op = r.choice(["div", "udiv", "mod", "umod", "divs", "udivs", "mods", "umods"])
+            if op.endswith("s"):
+                self.emit("uext32" if op[0] == "u" else "ext32", "t0", sd)
+            else:
+                self.emit("mov", "t0", sd)
+            self.emit("beq", skipd, "t0", 0)
+            if op[0] != "u":
+                self.emit("beq", skipd, "t0", -1)
+            self.emit(op, "t1", se, sd)
+            if op.endswith("s"):
+                self.emit("ext32", "t1", "t1")
+            self.emit("xor", ss, ss, "t1")
+            self.emit("label", skipd)
+            self.stat("guarded_div")
         if r.chance(2, 3):   # several blocks in the loop
             self.emit(r.choice(BCMP), skip, self.ireg(), self.isrc())
             if r.chance(1, 2):
